@@ -24,6 +24,7 @@ mod repairworld;
 mod replay;
 mod vworld;
 mod wire;
+mod wireworld;
 
 use std::collections::{BTreeMap, BTreeSet};
 use std::sync::atomic::{AtomicBool, AtomicU64, Ordering};
@@ -137,6 +138,28 @@ fn main() {
     if let Err(e) = wire::self_check() {
         eprintln!("HARNESS ERROR: wire self-check failed: {e}");
         std::process::exit(2);
+    }
+    if let Ok(level) = std::env::var("AGSIM_LOG") {
+        struct L;
+        impl log::Log for L {
+            fn enabled(&self, _: &log::Metadata) -> bool {
+                true
+            }
+            fn log(&self, r: &log::Record) {
+                if r.target().starts_with("alpenglow") {
+                    eprintln!("[{} {}] {}", r.level(), r.target(), r.args());
+                }
+            }
+            fn flush(&self) {}
+        }
+        static LOGGER: L = L;
+        let _ = log::set_logger(&LOGGER);
+        log::set_max_level(match level.as_str() {
+            "trace" => log::LevelFilter::Trace,
+            "debug" => log::LevelFilter::Debug,
+            "info" => log::LevelFilter::Info,
+            _ => log::LevelFilter::Warn,
+        });
     }
     let code = match args.first().map(String::as_str) {
         Some("check") => cmd_check(&args[1..]),
